@@ -22,6 +22,17 @@ func main() {
 	defer func() {
 		hv.Stats(map[string]int{"well_formed_builds_premises_checked": nWF, "copies_checked_independent": nCopy})
 	}()
+	// the smallest graphs first: no node at all (acyclic: the sort succeeds with the empty order), also as a copy
+	for _, g0 := range []*toposort.Graph{toposort.NewGraph(), toposort.NewGraph().Copy()} {
+		fmt.Fprintln(wo, "new")
+		fmt.Fprintln(wi, "ok")
+		fmt.Fprintln(wo, "sort")
+		res, ok := g0.Toposort()
+		fmt.Fprintf(wi, "%v [%s]\n", ok, strings.Join(res, ", "))
+		if !ok || len(res) != 0 {
+			hv.Fail("toposort", `{"nodes":0,"edges":[]}`, fmt.Sprintf("the graph without nodes sorts to %v success=%v", res, ok))
+		}
+	}
 	for it := 0; it < hvCount; it++ {
 		g := toposort.NewGraph()
 		fmt.Fprintln(wo, "new")
